@@ -239,6 +239,7 @@ type world struct {
 	first     api.Module // kDeriv: first module of the same FSConfig, kept open
 	prov      int        // configuration provenance (pDirect ...)
 	sibDir    string     // MapFS + provenance: host directory the discarded writable siblings point at
+	neigh     bool       // neighbour words (neigh.go): "new"/"ren"/"rw" are descriptors of the WRITABLE mount
 	cross     bool       // a writable WithDirMount(rwDir, "/rw") is preopened first (fd 3); the immutable mount is fd 4
 	rwDir     string
 	pre       uint64 // descriptor of the immutable mount's root
@@ -625,6 +626,11 @@ func (w *world) fd(sym string) uint64 {
 	case "new2":
 		if len(w.open) > 1 {
 			return uint64(w.open[1])
+		}
+		return 78
+	case "last":
+		if len(w.open) > 0 {
+			return uint64(w.open[len(w.open)-1])
 		}
 		return 78
 	case "ren":
